@@ -151,6 +151,11 @@ func (s *Sandbox) SyncExt(e Ext) error {
 			_ = w("selfkill."+k, "")
 		}
 	}
+	for k, v := range e.Soft {
+		if v {
+			_ = w("softfail."+k, "")
+		}
+	}
 	return nil
 }
 
